@@ -289,6 +289,39 @@ Proof.
     apply enc_go_row_go.
 Qed.
 
+(* ... and therefore satisfies the reconstruction equations of the PNG reference decoder, byte for byte *)
+Lemma encode_row_Recon tn bpp prior raw filt :
+  encode_row tn bpp prior raw = filt -> Recon tn bpp prior filt raw.
+Proof.
+  intro H. subst filt. unfold Recon. rewrite encode_row_length. split; [reflexivity|].
+  intros i Hi. unfold encode_row.
+  rewrite nth_indep with (l := map _ _) (d' := filt_byte tn bpp prior raw 0) by (rewrite map_length, seq_length; exact Hi).
+  rewrite map_nth. rewrite seq_nth by exact Hi. cbn [Nat.add].
+  unfold filt_byte. rewrite val_of_val.
+  rewrite Zplus_mod_idemp_l.
+  match goal with |- _ = ((?a - ?b + ?b) mod 256)%Z => replace (a - b + b)%Z with a by lia end.
+  symmetry. apply Z.mod_small. apply val_range.
+Qed.
+
+Theorem decode_row_Recon t bpp prior filt raw :
+  0 < bpp -> length prior = length filt ->
+  decode_row t (N.of_nat bpp) prior filt = Ok raw -> Recon (tnum t) bpp prior filt raw.
+Proof. intros Hb Hl H. apply encode_row_Recon. apply (decode_row_recon t bpp prior filt raw Hb Hl H). Qed.
+
+(* the reconstruction equations determine the row: any two solutions are equal (so "the" reference decoding) *)
+Lemma Recon_unique tn bpp prior filt raw1 raw2 :
+  0 < bpp -> Recon tn bpp prior filt raw1 -> Recon tn bpp prior filt raw2 -> raw1 = raw2.
+Proof.
+  intros Hb [L1 R1] [L2 R2].
+  assert (forall i, i < length filt -> nth i raw1 x00 = nth i raw2 x00) as H.
+  { induction i as [i IH] using lt_wf_ind. intro Hi.
+    apply val_inj. rewrite R1, R2 by exact Hi.
+    assert (back raw1 i bpp = back raw2 i bpp) as ->; [|reflexivity].
+    unfold back. destruct (Nat.ltb_spec i bpp); [reflexivity|].
+    rewrite IH by lia. reflexivity. }
+  apply (nth_ext _ _ x00 x00); [congruence|]. intros i Hi. apply H. lia.
+Qed.
+
 (* ---------- frames ---------- *)
 
 Definition prior_of (prev : option bytes) (n : nat) : bytes :=
